@@ -385,6 +385,10 @@ def net_pipeline(ctx):
             elif d.get("e") == "unsettled":
                 per[tk]["unsettled"] += 1
     summ = dict(summ, per_transport=per)
+    # an overloaded machine makes every world "unsettled" and nothing is judged: that is a tool error, not a pass
+    if summ.get("unsettled_logs", 0) > 0.5 * max(1, summ.get("node_logs", 0)):
+        raise ToolError("real-network part: %d of %d node logs did not settle (machine overloaded?) - nothing could be judged" %
+                        (summ["unsettled_logs"], summ["node_logs"]))
     viol = []
     for r in rejects:
         seg, idx = r
